@@ -232,3 +232,143 @@ def r12_enumerate(text, log):
     edits = [(m.start(), m.end(), new_head), (toks[cb].start, toks[cb].start, f"    {i} = {i} + 1;\n        ")]
     log.append(("R12", f"for ({i}, {x}) in {it}.enumerate() -> explicit counter {i}"))
     return apply_edits(text, edits)
+
+
+# ------------------------------------------------------------------------------------------------
+# R13: private single-expression helper functions that no contract template knows (added to a file after the
+# contracts were written) are inlined at their call sites, so that the callers stay within reach of their contracts.
+# ------------------------------------------------------------------------------------------------
+_R13_FORBIDDEN = {"return", "loop", "while", "for", "async", "await", "fn", "break", "continue", "unsafe", "self", "Self"}
+
+
+def r13_helper_shape(fn_text):
+    """(name, [(param, type or None)], expression text) when `fn_text` is a free, non-generic
+    `fn name(p1: T1, ..) -> R { EXPR }` whose body is ONE expression (no statement, no `?`, no control transfer);
+    None otherwise."""
+    try:
+        sh = FnShape(fn_text)
+    except Exception:
+        return None
+    toks = sh.toks
+    if sh.body_open is None:
+        return None
+    k = _next_code(toks, sh.fn_k)
+    if k is None or toks[k].kind != "ident":
+        return None
+    name = toks[k].text
+    p = _next_code(toks, k)
+    if p is not None and toks[p].text == "<":     # lifetime parameters only (`<'a, 'b>`); type generics are not handled
+        q = p + 1
+        while q < len(toks) and toks[q].text != ">":
+            if toks[q].kind not in ("ws", "comment", "lifetime") and toks[q].text not in (",", "'"):
+                return None
+            q += 1
+        p = _next_code(toks, q)
+    if p is None or toks[p].text != "(":
+        return None
+    pc = match_close(toks, p)
+    # parameters
+    params, depth, start = [], 0, toks[p].end
+    cur_start = start
+    parts = []
+    j = p + 1
+    while j < pc:
+        t = toks[j]
+        if t.kind == "punct" and t.text in "([{<":
+            depth += 1
+        elif t.kind == "punct" and t.text in ")]}>":
+            depth -= 1
+        elif t.kind == "punct" and t.text == "," and depth == 0:
+            parts.append(fn_text[cur_start:t.start]); cur_start = t.end
+        j += 1
+    last = fn_text[cur_start:toks[pc].start]
+    if last.strip():
+        parts.append(last)
+    for part in parts:
+        m = re.match(r"^\s*(?:mut\s+)?([a-z_][a-z0-9_]*)\s*:\s*(.+?)\s*$", part, re.S)
+        if not m:
+            return None
+        ty = m.group(2)
+        params.append((m.group(1), None if "'" in ty or "impl" in ty else ty))
+    # body: a single expression (inlineable anywhere) — or any statements (inlineable only where the call is the tail
+    # expression of its caller: `?` and `return` in the body then leave the same frame as before, with the same type)
+    body_toks = [t for t in toks[sh.body_open + 1:sh.body_close] if t.kind not in ("ws", "comment")]
+    if not body_toks:
+        return None
+    expr = fn_text[toks[sh.body_open].end:toks[sh.body_close].start].strip()
+    if _r13_single_expression(body_toks):
+        return name, params, expr, False
+    if any(t.kind == "ident" and t.text in ("self", "Self", "async", "await", "unsafe") for t in body_toks):
+        return None
+    return name, params, expr, True
+
+
+def _r13_single_expression(body_toks):
+    depth = 0
+    for t in body_toks:
+        if t.kind == "punct" and t.text in "([{":
+            depth += 1
+        elif t.kind == "punct" and t.text in ")]}":
+            depth -= 1
+        elif t.kind == "punct" and t.text == ";" and depth == 0:
+            return None
+        if t.kind == "punct" and t.text == "?":
+            return None
+        if t.kind == "ident" and t.text in _R13_FORBIDDEN:
+            return None
+        if t.kind == "ident" and t.text == "let" and depth == 0:
+            return None
+    return True
+
+
+def r13_inline_helpers(text, helpers, log):
+    """R13: `h(a, b)` -> `({ let p1__ = a; let p2__ = b; let p1 = p1__; let p2 = p2__; EXPR })` for every helper h in
+    `helpers` (name -> (params, expr)). Arguments are evaluated once, in order, before the body — what a call does."""
+    if not helpers:
+        return text
+    for _round in range(4):                       # helpers calling helpers
+        toks = lex(text)
+        edit = None
+        for k, t in enumerate(toks):
+            if t.kind != "ident" or t.text not in helpers:
+                continue
+            n = _next_code(toks, k)
+            pr = _prev_code(toks, k)
+            if n is None or toks[n].text != "(":
+                continue
+            if pr is not None and (toks[pr].text in ("fn", ".") or (toks[pr].text == ":" and pr > 0 and toks[pr - 1].text == ":")):
+                continue
+            close = match_close(toks, n)
+            args, depth, cur = [], 0, toks[n].end
+            for j in range(n + 1, close):
+                tt = toks[j]
+                if tt.kind == "punct" and tt.text in "([{":
+                    depth += 1
+                elif tt.kind == "punct" and tt.text in ")]}":
+                    depth -= 1
+                elif tt.kind == "punct" and tt.text == "," and depth == 0:
+                    args.append(text[cur:tt.start].strip()); cur = tt.end
+            lastarg = text[cur:toks[close].start].strip()
+            if lastarg:
+                args.append(lastarg)
+            params, expr, tail_only = helpers[t.text]
+            if len(args) != len(params):
+                continue
+            if tail_only:
+                # the call must be the tail expression of the function body it stands in
+                try:
+                    shc = FnShape(text)
+                except Exception:
+                    continue
+                nx = _next_code(toks, close)
+                if shc.body_open is None or nx != shc.body_close or pr is None or toks[pr].text not in ("{", ";", "}"):
+                    continue
+            lets = "".join(f"let {p}__{'' if ty is None else ': ' + ty} = {a}; " for (p, ty), a in zip(params, args))
+            lets += "".join(f"let {p} = {p}__; " for (p, _ty) in params)
+            edit = (t.start, toks[close].end, ("{ " + lets + "\n" + expr + "\n}") if tail_only else ("({ " + lets + expr + " })"))
+            log.append(("R13", f"call of helper `{t.text}` (a function without contract; " + ("statements, inlined in tail position" if tail_only else "single expression") + ") inlined"))
+            break
+        if edit is None:
+            return text
+        text = apply_edits(text, [edit])
+    return text
